@@ -1,6 +1,6 @@
 -------------------------- MODULE PathSafetyTrace --------------------------
 (* Trace judge for C14.  Input: ndjson (TRACE_FILE), one TLC state per line.                  *)
-(*  join  : [t, i, op, dir, parts, r : [kind : "none" | "path" | "exc", v, exc], np,          *)
+(*  join  : [t, i, op, dir, cwd, parts, r : [kind : "none" | "path" | "exc", v, exc], np,     *)
 (*           has_exp, exp_ok, exp_path]                                                       *)
 (*          one call safe_join(dir, *parts); np = posixpath.normpath(result) and the          *)
 (*          expectation exported from MCPathSafety are used for the drift report only.        *)
@@ -30,7 +30,10 @@ Drift(ln, ok, what) == IF ok THEN TRUE
 (* ---- safe_join ------------------------------------------------------------------------------ *)
 JoinClause(ln) ==
   IF ln.r.kind = "none" THEN "ok"
-  ELSE IF ln.r.kind = "path" THEN (IF Contained(ln.r.v, ln.dir) THEN "ok" ELSE "Contained")
+  ELSE IF ln.r.kind = "path" THEN
+       \* inside the base as given, or (should safe_join ever answer with an absolute path) inside the
+       \* base resolved against the logged working directory
+       (IF Contained(ln.r.v, ln.dir) \/ Contained(ln.r.v, Join2(ln.cwd, ln.dir)) THEN "ok" ELSE "Contained")
   ELSE "RefusesOrYields"
 
 JoinDrift(ln) ==
@@ -47,8 +50,8 @@ FileById(id) == LET S == {k \in 1..Len(tree) : tree[k].id = id} IN
                 IF S = {} THEN [id |-> 0, inside |-> FALSE, rel |-> <<>>] ELSE tree[CHOOSE k \in S : TRUE]
 
 ServeClause(ln) ==
-  IF ln.exc # "" THEN "ok"        \* nothing was served (an escaping exception is robustness, C07, not containment)
-  ELSE IF ln.status = 404 /\ ln.served = 0 THEN "ok"
+  IF ln.exc # "" THEN "RefusesOrYields"      \* neither a refusal (404) nor a file: an exception escaped the helper
+  ELSE IF ln.status >= 400 /\ ln.status <= 499 /\ ln.served = 0 THEN "ok"      \* refused
   ELSE IF ln.status = 200 THEN (IF FileById(ln.served).inside THEN "ok" ELSE "ServedInsideRoot")
   ELSE "RefusesOrYields"
 
@@ -60,7 +63,7 @@ Named(ln) == LET p == NormPath(ln.path)
 ServeDrift(ln) ==
   LET m == SafeJoin("code", <<114>>, <<ln.path>>)
       want == IF m.ok THEN Named(ln) ELSE 0 IN
-  Drift(ln, ln.exc # "" \/ ln.served = want, "served file vs the file PathSafety!SafeJoin names")
+  Drift(ln, ln.exc = "" /\ ln.served = want, "served file vs the file PathSafety!SafeJoin names")
 
 (* ---- secure_filename ---------------------------------------------------------------------------- *)
 SanClause(ln) ==
